@@ -29,7 +29,14 @@ pub fn builtin_min(a: f64, b: f64) -> f64 {
 #[allow(non_snake_case)]
 #[builtin]
 pub fn builtin_clamp(x: f64, minVal: f64, maxVal: f64) -> f64 {
-	x.clamp(minVal, maxVal)
+	// Not f64::clamp: it panics when minVal > maxVal, std.clamp is defined for any bounds
+	if x < minVal {
+		minVal
+	} else if x > maxVal {
+		maxVal
+	} else {
+		x
+	}
 }
 
 #[builtin]
